@@ -295,7 +295,7 @@ class Poly:
         return Poly(d)
 
     def __eq__(self, o):
-        return self.d == o.d
+        return isinstance(o, Poly) and self.d == o.d
 
     def __hash__(self):
         return hash(frozenset(self.d.items()))
@@ -332,14 +332,29 @@ class Poly:
         return ' + '.join(parts)
 
 
+def nosite(t):
+    """the same term with call sites erased: two calls of one function on equal arguments compare equal
+    (used where the callee is a pure accessor: size(), min(), to_vector(), ...)"""
+    if not isinstance(t, tuple):
+        return t
+    if t and t[0] == 'call':
+        callee = t[1] if isinstance(t[1], str) else ('ind', nosite(t[1][1]))
+        return ('call', callee, tuple(nosite(a) for a in t[2]), 0)
+    return tuple(nosite(x) for x in t)
+
+
 def poly(t, named_consts=True, opaque=None):
+    return _poly(nosite(t), named_consts, opaque)
+
+
+def _poly(t, named_consts=True, opaque=None):
     """normal form of an integer/float expression term.  Value-preserving casts are dropped
     (IntToInt between i32/usize etc. — the caller states that wrap-around is out of scope).
     Non-polynomial operators become opaque leaves with normalised children."""
     t0 = t
     h = t[0]
     if h == 'cast' and t[1] in ('IntToInt', 'FloatToFloat', 'IntToFloat'):
-        return poly(t[3], named_consts, opaque)
+        return _poly(t[3], named_consts, opaque)
     if h in ('const', 'cnamed'):
         v = const_val(t)
         if v is not None and (named_consts or h == 'const'):
@@ -352,15 +367,15 @@ def poly(t, named_consts=True, opaque=None):
     if h == 'bin':
         op = t[1]
         if op in ('Add', 'Sub', 'Mul'):
-            a = poly(t[2], named_consts, opaque)
-            b = poly(t[3], named_consts, opaque)
+            a = _poly(t[2], named_consts, opaque)
+            b = _poly(t[3], named_consts, opaque)
             return a + b if op == 'Add' else (a - b if op == 'Sub' else a * b)
         if op == 'Shl':
-            b = poly(t[3], named_consts, opaque).const_value()
+            b = _poly(t[3], named_consts, opaque).const_value()
             if b is not None and b.denominator == 1 and 0 <= b < 63:
-                return poly(t[2], named_consts, opaque) * Poly.const(1 << int(b))
-        a = poly(t[2], named_consts, opaque)
-        b = poly(t[3], named_consts, opaque)
+                return _poly(t[2], named_consts, opaque) * Poly.const(1 << int(b))
+        a = _poly(t[2], named_consts, opaque)
+        b = _poly(t[3], named_consts, opaque)
         ca, cb = a.const_value(), b.const_value()
         if ca is not None and cb is not None and ca.denominator == 1 and cb.denominator == 1:
             ia, ib = int(ca), int(cb)
@@ -374,10 +389,10 @@ def poly(t, named_consts=True, opaque=None):
                 return Poly.const(ia | ib)
         return Poly.leaf(('bin', op, ('poly', a), ('poly', b)))
     if h == 'un' and t[1] == 'Neg':
-        return -poly(t[2], named_consts, opaque)
+        return -_poly(t[2], named_consts, opaque)
     if h == 'call':
         # min/max/etc stay opaque but with normalised arguments
-        return Poly.leaf(('call', t[1], tuple(('poly', poly(a, named_consts, opaque)) if a[0] in ('bin', 'cast', 'un', 'const', 'cnamed') else a for a in t[2])))
+        return Poly.leaf(('call', t[1], tuple(('poly', _poly(a, named_consts, opaque)) if a[0] in ('bin', 'cast', 'un', 'const', 'cnamed') else a for a in t[2])))
     return Poly.leaf(t0)
 
 
